@@ -13,8 +13,11 @@ package main
 // of the inductive definition; they are part of the trusted base and listed in the evidence.
 
 import (
+	"fmt"
 	"go/ast"
+	"go/token"
 	"go/types"
+	"os"
 )
 
 var realArr = ArrayOf(SInt, SReal)
@@ -25,39 +28,12 @@ func init() {
 }
 
 const wfPrelude = `
-(define-fun agreeP ((a (Array Int Real)) (o Int) (b (Array Int Real)) (o2 Int) (n Int)) Bool
-  (forall ((k Int)) (=> (and (<= 0 k) (< k n)) (= (select b (+ o2 k)) (select a (+ o k))))))
 ; A5: two boundaries of the same decoding are at least one record apart
 (assert (forall ((a (Array Int Real)) (o Int) (n Int) (i Int) (k Int))
  (! (=> (and (wfp a o n) (bnd a o n i) (bnd a o n k) (< i k)) (>= k (+ i (tagLen (select a (+ o i))))))
     :pattern ((bnd a o n i) (bnd a o n k)))))
 ; I0: the empty sequence
 (assert (forall ((a (Array Int Real)) (o Int)) (! (and (wfp a o 0) (forall ((i Int)) (! (= (bnd a o 0 i) (= i 0)) :pattern ((bnd a o 0 i))))) :pattern ((wfp a o 0)))))
-; I1: extend the prefix that ends at boundary j by one record
-(assert (forall ((a (Array Int Real)) (o Int) (n Int) (j Int) (b (Array Int Real)) (o2 Int) (m Int))
- (! (=> (and (wfp a o n) (bnd a o n j) (agreeP a o b o2 j)
-             (isTag (select b (+ o2 j)))
-             (= m (+ j (tagLen (select b (+ o2 j)))))
-             (= (select b (+ o2 m (- 1))) (select b (+ o2 j)))
-             (=> (= j 0) (= (select b (+ o2 j)) 1.0))
-             (=> (and (> j 0) (= (select a (+ o j (- 1))) 32.0)) (= (select b (+ o2 j)) 1.0)))
-        (and (wfp b o2 m)
-             (forall ((i Int)) (! (= (bnd b o2 m i) (or (and (<= i j) (bnd a o n i)) (= i m))) :pattern ((bnd b o2 m i))))))
-    :pattern ((bnd a o n j) (wfp b o2 m)))))
-; I2: a prefix that ends at a boundary (also: copies and frames)
-(assert (forall ((a (Array Int Real)) (o Int) (n Int) (j Int) (b (Array Int Real)) (o2 Int))
- (! (=> (and (wfp a o n) (bnd a o n j) (agreeP a o b o2 j))
-        (and (wfp b o2 j)
-             (forall ((i Int)) (! (= (bnd b o2 j i) (and (<= i j) (bnd a o n i))) :pattern ((bnd b o2 j i))))))
-    :pattern ((bnd a o n j) (wfp b o2 j)))))
-; I3: cells strictly inside one record change (coordinates), same array position
-(assert (forall ((a (Array Int Real)) (o Int) (n Int) (i Int) (b (Array Int Real)))
- (! (=> (and (wfp a o n) (bnd a o n i) (< i n)
-             (forall ((k Int)) (=> (and (<= 0 k) (< k n) (or (<= k i) (>= k (+ i (tagLen (select a (+ o i))) (- 1)))))
-                                   (= (select b (+ o k)) (select a (+ o k))))))
-        (and (wfp b o n)
-             (forall ((k Int)) (! (= (bnd b o n k) (bnd a o n k)) :pattern ((bnd b o n k))))))
-    :pattern ((bnd a o n i) (wfp b o n)))))
 `
 
 const wfDefs = `(define-fun isTag ((t Real)) Bool (or (= t 1.0) (= t 2.0) (= t 4.0) (= t 8.0) (= t 16.0) (= t 32.0)))
@@ -92,6 +68,20 @@ func (x *Exec) unfoldBnd(s *State, a, o, n, i *Term) {
 
 // dir: 0 both, -1 backward chain only, +1 forward chain only
 func (x *Exec) unfoldBndD(s *State, a, o, n, i *Term, depth int, dir int) {
+	if x.bndMentions == nil {
+		x.bndMentions = map[*Term][]*Term{}
+	}
+	if depth >= 1 && dir == 0 || true {
+		dup := false
+		for _, m := range x.bndMentions[a] {
+			if m == i {
+				dup = true
+			}
+		}
+		if !dup {
+			x.bndMentions[a] = append(x.bndMentions[a], i)
+		}
+	}
 	g := And(wfpT(a, o, n), bndT(a, o, n, i))
 	t := Select(a, Arith("+", o, i))
 	lt := tagLenT(t)
@@ -153,3 +143,217 @@ func (x *Exec) specBnd(s *State, call *ast.CallExpr) *Term {
 }
 
 var _ types.Type
+
+// ---- event-driven introduction rules: emitted by the engine at the heap events that create a new
+// command array from an old one (store, append, slicing, copy). Each is an instance of the
+// introduction rules of the inductive definition for the two concrete sequences involved.
+
+func bndEquiv(x *Exec, b, o2, m *Term, rhs func(i *Term) *Term) *Term {
+	i := BoundVar(sanitizeSym(x.freshName("bi")), SInt)
+	lhs := bndT(b, o2, m, i)
+	r := rhs(i)
+	pats := [][]*Term{{lhs}}
+	// also trigger on boundary terms of the source sequence that are applied to the bare variable
+	var find func(t *Term)
+	seen := map[*Term]bool{}
+	find = func(t *Term) {
+		if seen[t] {
+			return
+		}
+		seen[t] = true
+		if t.K == TApp && t.Op == "bnd" && t.Args[3] == i && !hasIte(t.Args[0]) && !hasIte(t.Args[1]) && !hasIte(t.Args[2]) {
+			pats = append(pats, []*Term{t})
+			return
+		}
+		for _, a := range t.Args {
+			find(a)
+		}
+	}
+	find(r)
+	return Forall([]*Term{i}, Eq(lhs, r), pats...)
+}
+
+// store into cell idx (relative to o) of sequence (a,o,n) giving array b
+func (x *Exec) wfStoreRule(s *State, a, b, o, n, idx *Term) {
+	i := BoundVar(sanitizeSym(x.freshName("ri")), SInt)
+	t := Select(a, Arith("+", o, i))
+	hyp := And(wfpT(a, o, n), bndT(a, o, n, i), Cmp("<", i, idx), Cmp("<", idx, Arith("-", Arith("+", i, tagLenT(t)), IntLit(1))))
+	concl := And(wfpT(b, o, n), bndEquiv(x, b, o, n, func(k *Term) *Term { return bndT(a, o, n, k) }))
+	s.assume(Forall([]*Term{i}, Implies(hyp, concl), []*Term{bndT(a, o, n, i)}))
+	x.eng.usedWf = true
+}
+
+// tag store: both tags of the record at boundary j change to nt (same length)
+// handled by the general "last record replaced" rule below.
+
+// append of the values vals to (a,o,n) giving (b,o2,n+len(vals)): one new record
+func (x *Exec) wfAppendRule(s *State, a, o, n, b, o2 *Term, vals []*Term) {
+	c := int64(len(vals))
+	if c < 4 {
+		return
+	}
+	v0 := vals[0]
+	cond := And(wfpT(a, o, n), isTagT(v0), Eq(tagLenT(v0), IntLit(c)), Eq(vals[c-1], v0),
+		Implies(Eq(n, IntLit(0)), Eq(v0, RealLitF(1))),
+		Implies(And(Cmp(">", n, IntLit(0)), Eq(Select(a, Arith("-", Arith("+", o, n), IntLit(1))), RealLitF(32))), Eq(v0, RealLitF(1))))
+	m := Arith("+", n, IntLit(c))
+	concl := And(wfpT(b, o2, m), bndEquiv(x, b, o2, m, func(i *Term) *Term {
+		return Or(And(Cmp("<=", i, n), bndT(a, o, n, i)), Eq(i, m))
+	}))
+	s.assume(Implies(cond, concl))
+	x.eng.usedWf = true
+}
+
+// concatenation append(A, B...) : (a,o,n) ++ (c,oc,nc) = (b,o2,n+nc)
+func (x *Exec) wfConcatRule(s *State, a, o, n, c, oc, nc, b, o2 *Term) {
+	cond := And(wfpT(a, o, n), wfpT(c, oc, nc))
+	m := Arith("+", n, nc)
+	concl := And(wfpT(b, o2, m), bndEquiv(x, b, o2, m, func(i *Term) *Term {
+		return Or(And(Cmp("<=", i, n), bndT(a, o, n, i)), And(Cmp(">=", i, n), bndT(c, oc, nc, Arith("-", i, n))))
+	}))
+	s.assume(Implies(cond, concl))
+	x.eng.usedWf = true
+}
+
+// sub-sequence a[o+lo : o+hi] of (a,o,n)
+func (x *Exec) wfSliceRule(s *State, a, o, n, lo, hi *Term) {
+	cond := And(wfpT(a, o, n), bndT(a, o, n, lo), bndT(a, o, n, hi), Cmp("<=", lo, hi),
+		Or(Eq(lo, IntLit(0)), Eq(lo, hi), Eq(Select(a, Arith("+", o, lo)), RealLitF(1))))
+	o2 := Arith("+", o, lo)
+	m := Arith("-", hi, lo)
+	concl := And(wfpT(a, o2, m), bndEquiv(x, a, o2, m, func(i *Term) *Term {
+		return And(Cmp("<=", IntLit(0), i), Cmp("<=", i, m), bndT(a, o, n, Arith("+", lo, i)))
+	}))
+	s.assume(Implies(cond, concl))
+	x.eng.usedWf = true
+}
+
+// whole-sequence copy: (a,o,n) copied to (b,o2,n)
+func (x *Exec) wfCopyRule(s *State, a, o, n, b, o2, cnt, dstLen *Term) {
+	cond := And(wfpT(a, o, n), Eq(cnt, n), Eq(dstLen, n))
+	concl := And(wfpT(b, o2, n), bndEquiv(x, b, o2, n, func(i *Term) *Term { return bndT(a, o, n, i) }))
+	s.assume(Implies(cond, concl))
+	x.eng.usedWf = true
+}
+
+// record rewrite: relative to the root array r of a store chain, the array b differs from r only inside the
+// record that starts at boundary j (tags and/or coordinates), and that record is again a legal record of the same
+// length in b.
+func (x *Exec) wfRecordRewriteRule(s *State, r, b, o, n, idx *Term) {
+	j := BoundVar(sanitizeSym(x.freshName("rj")), SInt)
+	k := BoundVar(sanitizeSym(x.freshName("rk")), SInt)
+	t := Select(r, Arith("+", o, j))
+	l := tagLenT(t)
+	bt := Select(b, Arith("+", o, j))
+	outside := Forall([]*Term{k}, Implies(And(Cmp("<=", IntLit(0), k), Cmp("<", k, n), Or(Cmp("<", k, j), Cmp(">=", k, Arith("+", j, l)))),
+		Eq(Select(b, Arith("+", o, k)), Select(r, Arith("+", o, k)))))
+	hyp := And(wfpT(r, o, n), bndT(r, o, n, j), Cmp("<", j, n),
+		Cmp("<=", j, idx), Cmp("<", idx, Arith("+", j, l)),
+		outside,
+		isTagT(bt), Eq(tagLenT(bt), l), Eq(Select(b, Arith("-", Arith("+", Arith("+", o, j), l), IntLit(1))), bt),
+		Implies(Eq(j, IntLit(0)), Eq(bt, RealLitF(1))),
+		Implies(And(Cmp(">", j, IntLit(0)), Eq(Select(r, Arith("-", Arith("+", o, j), IntLit(1))), RealLitF(32))), Eq(bt, RealLitF(1))),
+		Implies(And(Cmp("<", Arith("+", j, l), n), Eq(bt, RealLitF(32))), Eq(Select(r, Arith("+", o, Arith("+", j, l))), RealLitF(1))))
+	concl := And(wfpT(b, o, n), bndEquiv(x, b, o, n, func(k *Term) *Term { return bndT(r, o, n, k) }))
+	s.assume(Forall([]*Term{j}, Implies(hyp, concl), []*Term{bndT(r, o, n, j)}))
+	x.eng.usedWf = true
+}
+
+// structural store: if the solver shows (quickly) that idx lies strictly inside a record that starts at a
+// boundary already mentioned for this array, the new array has the same decoding; the equivalence is
+// stated against the structural root of the store chain (star, not chain).
+func (x *Exec) wfStructuralStore(s *State, a, b, o, n, idx *Term, p token.Pos) bool {
+	if x.dry > 0 {
+		return false
+	}
+	if x.structRoot == nil {
+		x.structRoot = map[*Term]*Term{}
+	}
+	root := a
+	if r, ok := x.structRoot[a]; ok {
+		root = r
+	}
+	cands := append([]*Term(nil), x.bndMentions[a]...)
+	if root != a {
+		cands = append(cands, x.bndMentions[root]...)
+	}
+	var nb []*Term
+	for _, c := range cands {
+		if !c.hasBound {
+			nb = append(nb, c)
+		}
+	}
+	cands = nb
+	// simplest index terms last (tried first)
+	size := func(t *Term) int {
+		n := 0
+		if t.K == TLit {
+			return 40 // literals (0, n) are rarely the record that contains idx
+		}
+		var rec func(t *Term)
+		rec = func(t *Term) {
+			n++
+			if n > 50 {
+				return
+			}
+			for _, a := range t.Args {
+				rec(a)
+			}
+		}
+		rec(t)
+		return n
+	}
+	for i := 1; i < len(cands); i++ {
+		for j := i; j > 0 && size(cands[j]) > size(cands[j-1]); j-- {
+			cands[j], cands[j-1] = cands[j-1], cands[j]
+		}
+	}
+	var qf []*Term
+	for _, h := range s.assumes {
+		if !hasQuant(h) {
+			qf = append(qf, h)
+		}
+	}
+	for ci := len(cands) - 1; ci >= 0 && ci >= len(cands)-3; ci-- {
+		i := cands[ci]
+		t := Select(root, Arith("+", o, i))
+		goal := And(wfpT(root, o, n), bndT(root, o, n, i), Cmp("<", i, idx), Cmp("<", idx, Arith("-", Arith("+", i, tagLenT(t)), IntLit(1))))
+		ob := &Obligation{Name: fmt.Sprintf("%s/wfstore#%d", x.top.Key, len(x.sideObls)+1), Kind: "wfstore", Func: x.top.Key,
+			Hyps: qf, Goal: goal, Pos: x.pos(p), Text: "store strictly inside a record: decoding unchanged", fi: x.top, Props: x.curProps, HypTags: x.hypTags}
+		dir, _ := os.MkdirTemp("/var/tmp", "govc.side.")
+		r := quickSolve(ob, dir, 1)
+		os.RemoveAll(dir)
+		if os.Getenv("GOVC_TRACE") != "" {
+			fmt.Fprintf(os.Stderr, "wfstore %s cand#%d/%d: %s %s\n", x.pos(p), ci, len(cands), r.Status, r.Raw)
+		}
+		if r.Status == "proved" {
+			ob.Result = r
+			x.sideObls = append(x.sideObls, ob)
+			x.structRoot[b] = root
+			s.assume(And(Eq(wfpT(b, o, n), wfpT(root, o, n)), bndEquiv(x, b, o, n, func(k *Term) *Term { return bndT(root, o, n, k) })))
+			return true
+		}
+	}
+	return false
+}
+
+func hasIte(t *Term) bool {
+	seen := map[*Term]bool{}
+	var rec func(t *Term) bool
+	rec = func(t *Term) bool {
+		if seen[t] {
+			return false
+		}
+		seen[t] = true
+		if t.K == TApp && (t.Op == "ite" || t.Op == "and" || t.Op == "or" || t.Op == "not" || t.Op == "=") {
+			return true
+		}
+		for _, a := range t.Args {
+			if rec(a) {
+				return true
+			}
+		}
+		return false
+	}
+	return rec(t)
+}
